@@ -10,7 +10,8 @@ BEGIN, END = "<!-- seeded-table:begin -->", "<!-- seeded-table:end -->"
 
 def main():
     rows = []
-    for d in sorted(os.listdir(os.path.join(VERIF, "seeded")), key=lambda s: (s.split("-")[0], int(s.split("-m")[1]))):
+    ids = [d for d in os.listdir(os.path.join(VERIF, "seeded")) if os.path.isdir(os.path.join(VERIF, "seeded", d))]
+    for d in sorted(ids, key=lambda s: (s.split("-")[0], int(s.split("-m")[1]))):
         meta = json.load(open(os.path.join(VERIF, "seeded", d, "meta.json")))
         det = meta.get("detected_by") or {}
         how = det.get("how")
